@@ -40,10 +40,15 @@ def Tree.children : Tree σ → List (Tree σ)
   | .leaf _ _ => []
   | .node _ cs => cs
 
+mutual
 /-- leaves left to right -/
 def Tree.yield : Tree σ → List (Tok σ)
   | .leaf n v => [⟨n, v⟩]
-  | .node _ cs => (cs.map Tree.yield).flatten
+  | .node _ cs => Tree.yieldList cs
+def Tree.yieldList : List (Tree σ) → List (Tok σ)
+  | [] => []
+  | t :: ts => t.yield ++ Tree.yieldList ts
+end
 
 structure Cfg (σ : Type) where
   isTerm : σ → Bool
